@@ -101,6 +101,7 @@ type c09Behaviour struct {
 	Mode   string          `json:"mode"` // export | inbound
 	Local  c09Local        `json:"local"`
 	Peer   c09Peer         `json:"peer"` // export: the target; inbound: the peer the routes come from
+	Peer2  *c09Peer        `json:"peer2"` // export: target of the second export of the SAME stored path (absent: peer again)
 	Route  json.RawMessage `json:"route"`
 	Steps  []c09Step       `json:"steps"`
 	RawLoc json.RawMessage `json:"-"`
@@ -430,6 +431,9 @@ func c09Build(r c09Route, pfx int) c09Built {
 		if err != nil {
 			panic(err)
 		}
+		// the constructor copies into an exact-capacity slice; a list decoded from the wire is built
+		// with append and has spare capacity (len 3 -> cap 4): hand over our own backing array
+		a.Value = v[:len(r.Clist)]
 		attrs = append(attrs, a)
 	}
 	if r.Nhm != "none" {
@@ -594,7 +598,11 @@ func TestVerifC09(t *testing.T) {
 		var raw map[string]json.RawMessage
 		_ = json.Unmarshal(line, &raw)
 		tid++
-		tr.Emit(map[string]any{"ev": "Reset", "tid": tid, "mode": b.Mode, "local": raw["local"], "peer": raw["peer"]})
+		peer2 := raw["peer2"]
+		if b.Peer2 == nil {
+			peer2 = raw["peer"]
+		}
+		tr.Emit(map[string]any{"ev": "Reset", "tid": tid, "mode": b.Mode, "local": raw["local"], "peer": raw["peer"], "peer2": peer2})
 		switch b.Mode {
 		case "export":
 			w := world(b.Local, false)
@@ -609,26 +617,34 @@ func TestVerifC09(t *testing.T) {
 			}
 			built := c09Build(r, 1)
 			stored := table.NewPath(built.family, src, bgp.PathNLRI{NLRI: built.nlri}, false, built.attrs, now, false)
-			before := c09StoredView(stored, built)
-			// the server's fan-out step for one target peer
-			outs := w.s.processOutgoingPaths(target, []*table.Path{stored}, nil)
-			obs := map[string]any{"before": before}
-			switch {
-			case len(outs) == 0:
-				obs["adv"] = "no"
-				obs["out"] = c09Project(nil)
-			case len(outs) == 1 && outs[0].IsWithdraw:
-				obs["adv"] = "withdraw"
-				obs["out"] = c09Project(nil)
-			case len(outs) == 1:
-				obs["adv"] = "yes"
-				obs["out"] = c09Project(outs[0].GetPathAttrs())
-			default:
-				obs["adv"] = fmt.Sprintf("other:%d", len(outs))
-				obs["out"] = c09Project(nil)
+			// The same stored path is exported twice, as the server does for every further peer and
+			// on every re-export: first to `peer`, then to `peer2` (or to `peer` again).
+			targets := []*peer{target, target}
+			if b.Peer2 != nil {
+				targets[1] = w.c09AddPeer(t, *b.Peer2, true)
 			}
-			obs["after"] = c09StoredView(stored, built)
-			tr.Emit(map[string]any{"ev": "Export", "route": b.Route, "obs": obs})
+			for k, tg := range targets {
+				before := c09StoredView(stored, built)
+				// the server's fan-out step for one target peer
+				outs := w.s.processOutgoingPaths(tg, []*table.Path{stored}, nil)
+				obs := map[string]any{"before": before}
+				switch {
+				case len(outs) == 0:
+					obs["adv"] = "no"
+					obs["out"] = c09Project(nil)
+				case len(outs) == 1 && outs[0].IsWithdraw:
+					obs["adv"] = "withdraw"
+					obs["out"] = c09Project(nil)
+				case len(outs) == 1:
+					obs["adv"] = "yes"
+					obs["out"] = c09Project(outs[0].GetPathAttrs())
+				default:
+					obs["adv"] = fmt.Sprintf("other:%d", len(outs))
+					obs["out"] = c09Project(nil)
+				}
+				obs["after"] = c09StoredView(stored, built)
+				tr.Emit(map[string]any{"ev": "Export", "to": k + 1, "route": b.Route, "obs": obs})
+			}
 		case "inbound":
 			// a fresh speaker per history: the Loc-RIB is part of the observation
 			w := world(b.Local, true)
